@@ -197,7 +197,7 @@ func resultFollows(c *Check, a *Anchors, fb *FuncBody, label, rule string, extra
 		default:
 			if v := varOf(info, res); v != nil && st.Has(defPrefix(v)+label) {
 				ok, how = true, "returns the variable holding the call's result"
-			} else if st.Has("nonnil:"+label) {
+			} else if st.Has("nonnil:" + label) {
 				ok, how = true, "returns a non-nil error on the call's error edge"
 			} else {
 				// an expression built from a variable assigned from the call
@@ -570,12 +570,14 @@ func extraThreaded(c *Check, a *Anchors) {
 		}
 		var extra *types.Var
 		for _, s := range r.Body.List {
-			if as, ok := s.(*ast.AssignStmt); ok && len(as.Lhs) == 1 && len(as.Rhs) == 1 {
-				if cl, ok := ast.Unparen(as.Rhs[0]).(*ast.CompositeLit); ok {
-					if tv, ok := info.Types[cl]; ok {
-						if m, isMap := tv.Type.Underlying().(*types.Map); isMap && types.TypeString(m.Key(), nil) == "string" {
-							extra = varOf(info, as.Lhs[0])
-						}
+			if as, ok := s.(*ast.AssignStmt); ok && len(as.Lhs) == 1 && len(as.Rhs) == 1 && as.Tok == token.DEFINE {
+				// the per-iteration extras: a map[string]… defined in the loop body by a literal or by a helper that builds it
+				rhs := ast.Unparen(as.Rhs[0])
+				_, isLit := rhs.(*ast.CompositeLit)
+				_, isCall := rhs.(*ast.CallExpr)
+				if tv, ok := info.Types[rhs]; ok && (isLit || isCall) {
+					if m, isMap := tv.Type.Underlying().(*types.Map); isMap && types.TypeString(m.Key(), nil) == "string" {
+						extra = varOf(info, as.Lhs[0])
 					}
 				}
 			}
